@@ -519,8 +519,8 @@ fn ring_ops(c: &RingCase, ctx: &Ctx) -> Out {
     chk(&mut out, "Reduced::pow(e+1)", "-", &catch(|| x.pow(&e1).residue()), &((&pw * &ra) % &nm), &nm);
 
     // ---------- inv, /
-    inv_div(&mut out, "a", &x, &ra, &y, &rb, &nm);
-    inv_div(&mut out, "b", &y, &rb, &x, &ra, &nm);
+    inv_div(&mut out, ctx, lm, "a", &x, &ra, &y, &rb, &nm);
+    inv_div(&mut out, ctx, lm, "b", &y, &rb, &x, &ra, &nm);
     out
 }
 
@@ -536,7 +536,18 @@ fn chk_plain(out: &mut Out, what: &str, got: &Result<UBig, String>, want: &BigUi
 }
 
 /// `d.inv()` and `n / d` in every form
-fn inv_div(out: &mut Out, who: &str, d: &dashu_int::modular::Reduced, rd: &BigUint, n: &dashu_int::modular::Reduced, rn: &BigUint, nm: &BigUint) {
+/// id of the recorded finding about wrong inverses in multi-word rings (root cause: the Euclidean
+/// step of gcd/lehmer.rs `gcd_ext_in_place` drops high words of a Bezout coefficient)
+const KF_INV: &str = "C13/inv-large-wrong-coefficient";
+
+/// call-site + input class of KF_INV: multi-word ring (>= 3 words), element of >= 3 words (the
+/// `gcd_ext_in_place` branch of `inv_large`), inverse exists, and what came back is a residue in
+/// range that is simply not the inverse. Panics, `None`, out-of-range values are not covered.
+fn kf_inv_class(lm: usize, rd: &BigUint, invertible: bool) -> bool {
+    lm >= 3 && invertible && rd.bits() > 128
+}
+
+fn inv_div(out: &mut Out, ctx: &Ctx, lm: usize, who: &str, d: &dashu_int::modular::Reduced, rd: &BigUint, n: &dashu_int::modular::Reduced, rn: &BigUint, nm: &BigUint) {
     let g = rd.gcd(nm);
     let invertible = g.is_one();
     out.label(if invertible {
@@ -547,6 +558,7 @@ fn inv_div(out: &mut Out, who: &str, d: &dashu_int::modular::Reduced, rd: &BigUi
         "inv:none (gcd > 1)"
     });
     let one = BigUint::one() % nm;
+    let mut inv_known_bad = false;
     match catch(|| d.inv().map(|v| v.residue())) {
         Err(m) => out.fail(format!("Reduced::inv [{who}]: unexpected panic {}", normalise(&m))),
         Ok(None) => {
@@ -561,7 +573,12 @@ fn inv_div(out: &mut Out, who: &str, d: &dashu_int::modular::Reduced, rd: &BigUi
             } else if &v >= nm {
                 out.fail(format!("Reduced::inv [{who}]: residue {} outside [0, m), m = {}", show_u(&v), show_u(nm)));
             } else if (rd * &v) % nm != one {
-                out.fail(format!("Reduced::inv [{who}]: {} * {} is not 1 (mod {})", show_u(rd), show_u(&v), show_u(nm)));
+                if kf_inv_class(lm, rd, invertible) {
+                    inv_known_bad = true;
+                    ctx.known_or_fail(out, KF_INV, || format!("Reduced::inv [{who}]: {} * {} is not 1 (mod {})", show_u(rd), show_u(&v), show_u(nm)));
+                } else {
+                    out.fail(format!("Reduced::inv [{who}]: {} * {} is not 1 (mod {})", show_u(rd), show_u(&v), show_u(nm)));
+                }
             }
         }
     }
@@ -574,6 +591,9 @@ fn inv_div(out: &mut Out, who: &str, d: &dashu_int::modular::Reduced, rd: &BigUi
                     let q = u2n(q);
                     if &q >= nm {
                         out.fail(format!("{what} [{form}]: residue {} outside [0, m), m = {}", show_u(&q), show_u(nm)));
+                    } else if (&q * rd) % nm != *rn && inv_known_bad {
+                        // division multiplies by the inverse that was just seen to be wrong
+                        ctx.known_or_fail(out, KF_INV, || format!("{what} [{form}]: quotient {} times divisor {} is not {} (mod {})", show_u(&q), show_u(rd), show_u(rn), show_u(nm)));
                     } else if (&q * rd) % nm != *rn {
                         out.fail(format!("{what} [{form}]: quotient {} times divisor {} is not {} (mod {})", show_u(&q), show_u(rd), show_u(rn), show_u(nm)));
                     }
@@ -687,7 +707,15 @@ fn reducer_ops(c: &RingCase, ctx: &Ctx) -> Out {
                     Ok((ok, v)) => {
                         let v = u2n(&v);
                         out.check(ok, || "Reducer::inv: result does not pass Reducer::check".into());
-                        out.check(v < nm && (&ra * &v) % &nm == BigUint::one() % &nm, || format!("Reducer::inv: {} * {} is not 1 (mod {}) or out of range", show_u(&ra), show_u(&v), show_u(&nm)));
+                        if v >= nm {
+                            out.fail(format!("Reducer::inv: residue {} outside [0, m), m = {}", show_u(&v), show_u(&nm)));
+                        } else if (&ra * &v) % &nm != BigUint::one() % &nm {
+                            if kf_inv_class(lm, &ra, invertible) {
+                                ctx.known_or_fail(&mut out, KF_INV, || format!("Reducer::inv: {} * {} is not 1 (mod {})", show_u(&ra), show_u(&v), show_u(&nm)));
+                            } else {
+                                out.fail(format!("Reducer::inv: {} * {} is not 1 (mod {})", show_u(&ra), show_u(&v), show_u(&nm)));
+                            }
+                        }
                     }
                 }
             }
